@@ -72,6 +72,7 @@ type bridgeGen struct {
 	evms    [][]byte
 	addrIDs map[string]string
 	wdNext  uint64
+	idsFrom uint64 // wdNext when the current block was planned
 	deps    []*depInfo
 	wtxs    []*wdTx
 	cbDep   *depInfo // a deposit placed in a coinbase transaction
@@ -98,6 +99,7 @@ func (g *bridgeGen) mine() *btcBlock {
 	// coinbase: occasionally itself a deposit
 	var cb []byte
 	var cbid []byte
+	single := false
 	if g.cbDep == nil && (g.r.Intn(6) == 0 || g.mode == "deep") {
 		d := g.newDepositTx("none")
 		if d != nil {
@@ -105,6 +107,7 @@ func (g *bridgeGen) mine() *btcBlock {
 			cb, cbid = d.raw, d.txid
 			d.blk, d.pos, d.mined = h, 0, true
 			g.deps = append(g.deps, d)
+			single = g.r.Intn(2) == 0 // a block whose only transaction is this coinbase: its Merkle path is EMPTY (root = txid)
 		}
 	}
 	if cb == nil {
@@ -113,19 +116,24 @@ func (g *bridgeGen) mine() *btcBlock {
 	b.raws, b.txids = [][]byte{cb}, [][]byte{cbid}
 	// one block in three is shaped so that its last transaction is a pending one at the end of an odd level: Bitcoin's
 	// duplicate-last rule then lets that transaction verify at a second position
-	aliasShape := len(g.pendRaw) > 0 && g.r.Intn(3) == 0
+	aliasShape := len(g.pendRaw) > 0 && g.r.Intn(3) == 0 && !single
 	if aliasShape && (1+len(g.pendRaw))%2 == 0 {
 		raw, id := btc.Tx(g.r, []btc.Out{{Value: 1000, Script: []byte{txscript.OP_TRUE}}}, 0)
 		b.raws, b.txids = append(b.raws, raw), append(b.txids, id)
 	}
 	for i, raw := range g.pendRaw {
+		if single {
+			break // the waiting transactions go into the next block
+		}
 		b.raws = append(b.raws, raw)
 		b.txids = append(b.txids, goatcrypto.DoubleSHA256Sum(raw))
 		g.pending[i](b, len(b.raws)-1)
 	}
-	g.pending, g.pendRaw = nil, nil
+	if !single {
+		g.pending, g.pendRaw = nil, nil
+	}
 	// pad with unrelated transactions so that trees have several shapes
-	for k := g.r.Intn(4); k > 0 && !aliasShape; k-- {
+	for k := g.r.Intn(4); k > 0 && !aliasShape && !single; k-- {
 		raw, id := btc.Tx(g.r, []btc.Out{{Value: 1000, Script: []byte{txscript.OP_TRUE}}}, 0)
 		b.raws, b.txids = append(b.raws, raw), append(b.txids, id)
 	}
@@ -523,11 +531,22 @@ func bridgeHistory(w *tracew.Writer, seed int64, run, depth int, mode, network s
 		if err != nil {
 			return err
 		}
-		if _, err := s.RunBlock(plan); err != nil {
+		res, err := s.RunBlock(plan)
+		if err != nil {
 			return err
 		}
+		g.blockDone(res != nil && res.Res != nil && len(res.Res.TxResults) > 0 && res.Res.TxResults[0].Code == 0)
 	}
 	return nil
+}
+
+// blockDone: when the execution-block message failed, the execution layer's head did not move: the next execution block is
+// another child of the same parent and numbers its withdrawal requests from the same id again - the ids of the failed block
+// come back, attached to OTHER requests (addresses, amounts).
+func (g *bridgeGen) blockDone(msgOk bool) {
+	if !msgOk && g.idsFrom > 0 && g.idsFrom < g.wdNext && g.r.Intn(2) == 0 {
+		g.wdNext = g.idsFrom
+	}
 }
 
 func (s *Session) EmitBridgeInit() error {
@@ -610,6 +629,7 @@ func (g *bridgeGen) plan(mode string) (*BlockPlan, error) {
 	}
 	plan := &BlockPlan{DT: 1, Proposer: 0}
 	rare := func(k int) bool { return r.Intn(k) == 0 }
+	g.idsFrom = g.wdNext
 
 	// the bitcoin network moves on
 	if rare(2) || g.mined < uint64(st.Tip)+2 {
